@@ -34,6 +34,7 @@ using namespace llvm;
 static bool optUB = false;
 static std::set<std::string> modelFns;     // externals provided by the runtime model
 static std::set<std::string> stubbedFns;   // defined functions to be treated as external (cut)
+static std::set<std::string> noopFns;      // defined functions cut to an empty body (e.g. teardown that no assertion depends on)
 static std::set<std::string> guardFns;     // functions whose loads/stores get assert-then-assume validity guards
 
 [[noreturn]] static void die(const std::string& m) {
@@ -178,7 +179,7 @@ struct Emitter {
   }
 
   bool isExternal(const Function* F) {
-    return F->isDeclaration() || stubbedFns.count(F->getName().str());
+    return F->isDeclaration() || stubbedFns.count(F->getName().str()) || noopFns.count(F->getName().str());
   }
 
   void declareExternal(const Function* F) {
@@ -198,8 +199,9 @@ struct Emitter {
       for (unsigned i = 0; i < FT->getNumParams(); ++i) { if (i) params += ", "; params += normTy(FT->getParamType(i)) + " p" + std::to_string(i); }
       if (FT->isVarArg()) params += (FT->getNumParams() ? ", ..." : "");
       if (params.empty() && !FT->isVarArg()) params = "void";
-      extStubs << normTy(FT->getReturnType()) << " " << n << "(" << params << ") { __CPROVER_assert(0, \"unmodelled external: "
-               << F->getName().str() << "\"); __CPROVER_assume(0); ";
+      extStubs << normTy(FT->getReturnType()) << " " << n << "(" << params << ") { ";
+      if (!noopFns.count(F->getName().str()))
+        extStubs << "__CPROVER_assert(0, \"unmodelled external: " << F->getName().str() << "\"); __CPROVER_assume(0); ";
       if (!FT->getReturnType()->isVoidTy()) extStubs << normTy(FT->getReturnType()) << " r; memset(&r,0,sizeof r); return r; ";
       extStubs << "}\n";
     }
@@ -1032,6 +1034,7 @@ int main(int argc, char** argv) {
     else if (a == "--ub-checks") optUB = true;
     else if (a == "--model-list") { std::ifstream f(argv[++i]); std::string l; while (std::getline(f, l)) if (!l.empty()) modelFns.insert(l); }
     else if (a == "--stub") stubbedFns.insert(argv[++i]);
+    else if (a == "--noop") noopFns.insert(argv[++i]);
     else if (a == "--guard-list") { std::ifstream f(argv[++i]); std::string l; while (std::getline(f, l)) if (!l.empty()) guardFns.insert(l); }
     else in = a;
   }
